@@ -20,9 +20,15 @@ def compare(ck, texts, impl_outs=None):
         idx.append(k)
     louts = ck.lean_batch(req) if req else []
     bad = []
+    hyp = []
     for k, lo in zip(idx, louts):
         f = impl_outs[k].split("\t")
         g = lo.split("\t")
+        # hypotheses of the anchor theorem (C04), evaluated on this input's tables
+        while g and (g[-1].startswith("tokens=") or g[-1].startswith("spans=")):
+            flag = g.pop()
+            if flag.endswith("BAD"):
+                hyp.append((k, flag))
         if f[0] == "ok":
             iv = ("accept", f[3], f[2], f[1])
         elif f[0] == "err":
@@ -51,6 +57,8 @@ def compare(ck, texts, impl_outs=None):
         elif iv[0] == "reject":
             if iv[1] != mv[1]:
                 bad.append((k, "counter-on-reject", "impl next id %s, model counter %s" % (iv[1], mv[1])))
+    dist['hypothesis_failures'] = len(hyp)
+    compare.hyp = hyp
     return bad, dist
 
 
